@@ -30,6 +30,10 @@ type c06Case struct {
 	// goroutine without letting the instance settle (more than a catch event's inbox holds); the catch events
 	// work them off concurrently, so any delivered alternative may win - exactly one
 	Burst bool `json:"burst,omitempty"`
+	// Two: two tokens at the same gateway (two start events merged in front of it): "together" = both wait when the
+	// first event of Seq arrives, "apart" = the second token is sent in (task hold answered) after the first one's
+	// winner was answered; Seq[0] is delivered for the first situation, Seq[1] for the second token when apart
+	Two string `json:"two,omitempty"`
 }
 
 func c06Graph(c *c06Case) *gen.Graph {
@@ -149,10 +153,167 @@ func c06Cases(tier string, seed uint64) []fw.Case {
 			}
 		}
 	}
+	for alts := 2; alts <= 3; alts++ {
+		for a := 0; a < alts; a++ {
+			for b := 0; b < alts; b++ {
+				for _, two := range []string{"together", "apart"} {
+					if two == "together" && b != 0 {
+						continue
+					}
+					c := c06Case{Alts: alts, Seq: []int{a, b}, Two: two, Msg: (a+b)%2 == 1, Reps: 1}
+					c.Name = fmt.Sprintf("two/%s/a%d-%v", two, alts, c.Seq)
+					cs = append(cs, fw.MkCase("two-tokens", &c))
+				}
+			}
+		}
+	}
 	return fw.Number(cs)
 }
 
+// c06RunTwo: s1 -> XM, s2 -> hold -> XM (or s2 -> XM when both come together), XM -> EG -> c_i -> b_i -> end_i.
+// Every token that reaches the gateway gets a determination of its own: the alternative whose event arrives
+// continues once per waiting token, every token's other alternatives are withdrawn, the instance completes.
+func c06RunTwo(c *c06Case, env *fw.Env, v *fw.V) {
+	g := gen.NewGraph("c06two")
+	s1 := g.Add(gen.Start, "s1", "")
+	s2 := g.Add(gen.Start, "s2", "")
+	xm := g.Add(gen.Xor, "xm", "")
+	eg := g.Add(gen.EventGw, "eg", "")
+	g.Connect(s1, xm, nil)
+	if c.Two == "apart" {
+		hold := g.Add(gen.Task, "hold", "")
+		g.Connect(s2, hold, nil)
+		g.Connect(hold, xm, nil)
+	} else {
+		g.Connect(s2, xm, nil)
+	}
+	g.Connect(xm, eg, nil)
+	for i := 0; i < c.Alts; i++ {
+		ce := g.Add(gen.Catch, fmt.Sprintf("c%d", i), "")
+		if c.Msg {
+			ce.Events = []gen.EventDef{{Type: "message", Ref: fmt.Sprintf("ev%d", i)}}
+		} else {
+			ce.Events = []gen.EventDef{{Type: "signal", Ref: fmt.Sprintf("ev%d", i)}}
+		}
+		t := g.Add(gen.Task, fmt.Sprintf("b%d", i), "")
+		e := g.Add(gen.End, fmt.Sprintf("e%d", i), "")
+		g.Connect(eg, ce, nil)
+		g.Connect(ce, t, nil)
+		g.Connect(t, e, nil)
+	}
+	defs, _, err := step.Parse(g)
+	if err != nil {
+		v.Inconclusive("parse", "%v", err)
+		return
+	}
+	perturb.Rendezvous("", 0)
+	perturb.Off()
+	in, err := drive.New(env.Label, defs, drive.Opts{ExtraSubs: 1})
+	if err != nil {
+		v.Violate("new-process-error", "error", "%v", err)
+		return
+	}
+	defer in.Cancel()
+	cls := fmt.Sprintf("alts=%d-two-tokens-%s", c.Alts, c.Two)
+	quiet := func(what string) bool {
+		q := in.Quiesce(step.Watchdog)
+		v.Add("qpoints", 1)
+		if !q.Quiescent {
+			v.Inconclusive("watchdog", "no quiescent point %s: %v", what, quiesce.Summary(q.Gs))
+			return false
+		}
+		if gs := quiesce.DriverIn(q.Gs, "Process).ConsumeEvent"); len(gs) > 0 {
+			v.Violate("consume-blocked", cls, "%s: ConsumeEvent still blocked (at %s)", what, gs[0].TopRepoFrame())
+			return false
+		}
+		return true
+	}
+	want := map[string]int{}
+	check := func(what string) bool {
+		if !quiet(what) {
+			return false
+		}
+		for i := 0; i < c.Alts; i++ {
+			b := fmt.Sprintf("b%d", i)
+			if got := in.Count("Task", b); got != want[b] {
+				v.Violate("winner-count", cls, "%s: branch %s requested %d times, expected %d (sequence %v)", what, b, got, want[b], c.Seq)
+				v.Log = in.Tail(50)
+				return false
+			}
+		}
+		return true
+	}
+	answerAll := func() {
+		for _, r := range in.Pending() {
+			if r.Act != "hold" {
+				in.Answer(r, bpmn.DoWithResults(nil))
+			}
+		}
+	}
+	deliver := func(i int) {
+		ev := c06Event(c, i)
+		in.Go("ConsumeEvent", func() error { _, err := in.Proc.ConsumeEvent(ev); return err })
+	}
+	if err := in.Start(); err != nil {
+		v.Violate("start-error", "error", "%v", err)
+		return
+	}
+	if !check("after start") {
+		return
+	}
+	waiting := 1
+	if c.Two == "together" {
+		waiting = 2
+	}
+	deliver(c.Seq[0])
+	want[fmt.Sprintf("b%d", c.Seq[0])] += waiting
+	if !check("after the first event") {
+		return
+	}
+	answerAll()
+	if !check("after answering the winners") {
+		return
+	}
+	if c.Two == "apart" {
+		for _, r := range in.Pending() {
+			if r.Act == "hold" {
+				in.Answer(r, bpmn.DoWithResults(nil))
+			}
+		}
+		if !check("after the second token reached the gateway") {
+			return
+		}
+		deliver(c.Seq[1])
+		want[fmt.Sprintf("b%d", c.Seq[1])]++
+		if !check("after the second token's event") {
+			return
+		}
+		answerAll()
+		if !check("after answering the second winner") {
+			return
+		}
+	}
+	if n := in.Count("Determination", "eg"); n != 2 {
+		v.Violate("determination-count", cls, "%d determination traces for two tokens", n)
+	}
+	if n := in.Count("CeaseFlow", ""); n != 1 {
+		v.Violate("not-complete", cls, "both tokens' winners ended but %d cease-flow traces (sequence %v)", n, c.Seq)
+		v.Log = in.Tail(50)
+		return
+	}
+	for i := 0; i < c.Alts; i++ {
+		deliver(i)
+	}
+	if !check("after late deliveries") {
+		return
+	}
+}
+
 func c06Run(c *c06Case, env *fw.Env, v *fw.V) {
+	if c.Two != "" {
+		c06RunTwo(c, env, v)
+		return
+	}
 	if c.Loop {
 		c06RunLoop(c, env, v)
 		return
@@ -622,7 +783,7 @@ func init() {
 			v.Nontrivial = true
 			return v
 		},
-		Rule:        "gateways with 2 and 3 alternatives x all non-empty sequences of length <= 4 over the alternatives' events plus a stranger event, delivered sequentially (quiescence between deliveries; winner must be the first delivered alternative) and concurrently from different goroutines behind a barrier (exactly one request in total), signal and message events, determination hooks at probability 0/0.5/1; then the winner's task is answered: instance completes, waiter returns, late deliveries of every alternative have no effect; re-entry variants: alternative 0's branch loops back to the same gateway (2..4 activations), every activation must re-arm all alternatives and have exactly one winner, sequentially and with the second activation's events delivered at once; all cases non-trivial; distinct = descriptor hash; burst variants: ten non-matching events and then the sequence handed over back to back from one goroutine (exactly one winner among the delivered alternatives, completion, late deliveries without effect)",
+		Rule:        "gateways with 2 and 3 alternatives x all non-empty sequences of length <= 4 over the alternatives' events plus a stranger event, delivered sequentially (quiescence between deliveries; winner must be the first delivered alternative) and concurrently from different goroutines behind a barrier (exactly one request in total), signal and message events, determination hooks at probability 0/0.5/1; then the winner's task is answered: instance completes, waiter returns, late deliveries of every alternative have no effect; re-entry variants: alternative 0's branch loops back to the same gateway (2..4 activations), every activation must re-arm all alternatives and have exactly one winner, sequentially and with the second activation's events delivered at once; all cases non-trivial; distinct = descriptor hash; burst variants: ten non-matching events and then the sequence handed over back to back from one goroutine (exactly one winner among the delivered alternatives, completion, late deliveries without effect); two tokens at one gateway (together, or the second after the first was decided): a determination per token, the arriving alternative continues once per waiting token, completion",
 		Exhaustive:  func(tier string) bool { return tier == "thorough" },
 		Assumptions: []string{"events are delivered through Process.ConsumeEvent"},
 	})
